@@ -28,7 +28,7 @@ ASSUMPTIONS = ['R-fsm transcribed from PS3.8 Table 9-10', 'quiescence = 3 select
 
 ARTIM = 10.0
 PEER_EVENTS = ['p:rq', 'p:ac', 'p:rj', 'p:data', 'p:data2', 'p:part', 'p:relrq', 'p:relrp',
-               'p:abort', 'p:abort2', 'p:unk', 'p:unk0']
+               'p:abort', 'p:abort2', 'p:unk', 'p:unk0', 'p:garb']
 USER_LEGAL = {
     'Sta3': ['u:ac', 'u:rj', 'u:rj2', 'u:abort'],
     'Sta5': ['u:abort'],
@@ -115,7 +115,10 @@ class Model(object):
             raw = prims.PEER[name]
             if not self.sock_open:
                 return exp
-            self._fsm(prims.PEER_EVENT[name], exp, raw, name)
+            evt = prims.PEER_EVENT[name]
+            if name == 'garb' and self.state in ('Sta6', 'Sta7'):
+                evt = 'Evt19'      # undecodable DIMSE content where P-DATA is acted upon
+            self._fsm(evt, exp, raw, name)
             return exp
         # user primitive
         if name == 'gen':
